@@ -93,7 +93,21 @@ func c13Scenario(clients []gridClient) *explore.Scenario {
 					sentinelForced = true
 				}
 			}
-			what := fmt.Sprintf("%s client-config=%d server{max=%04x legacy=%v canary=%d}", g.Name, cliCfg, smax, legacy, canary)
+			// srv.echo: a TLS <= 1.2 ServerHello that additionally states its version in a
+			// supported_versions extension (what it says there is what the client ends up at)
+			echo := x.Choose("srv.echo", 2) == 1
+			if echo {
+				hk.Out = func(n int, t uint8, d []byte) []byte {
+					if t == 2 && !isHRR(d) {
+						if sp, ok := parseServerHello(d); ok && sp.find(43) == nil && len(sp.head) > 6 && (sp.head[4] == 3 && sp.head[5] <= 3) {
+							sp.exts = append(sp.exts, shExt{43, []byte{sp.head[4], sp.head[5]}})
+							return sp.build()
+						}
+					}
+					return d
+				}
+			}
+			what := fmt.Sprintf("%s client-config=%d server{max=%04x legacy=%v canary=%d echo-version-in-supported_versions=%v}", g.Name, cliCfg, smax, legacy, canary, echo)
 			var cleanup func()
 			ccfg := g.config("example.com")
 			switch cliCfg {
